@@ -234,6 +234,8 @@ class Ctx:
     def wcell(self, ref, field=None):
         self.write_log.append(ref.id)
         c = self.local.get(ref.id)
+        if c is not None and field == "{}" and getattr(c, "owner", None) is not None:
+            self.wcell(c.owner, "__dict__")     # a write through obj.__dict__ is a write to obj
         if c is None:
             b = self.world.base_heap[ref.id]
             c = _copy.copy(b)
@@ -249,7 +251,7 @@ class Ctx:
         if self.entry_id is not None and ref.id < self.entry_id and (ref.id, field) not in self.writes:
             # remember the entry value of the location (frame conditions ignore writes that restore it)
             if isinstance(c, HObj):
-                old = c.fields.get(field, _NOFIELD)
+                old = dict(c.fields) if field == "__dict__" else c.fields.get(field, _NOFIELD)
             elif isinstance(c, HList):
                 old = (list(c.items) if c.items is not None else None, c.seq)
             elif isinstance(c, HDict):
@@ -659,8 +661,30 @@ class Ctx:
                     continue
             self.exec_block(s.orelse, fr)
             return
+        if isinstance(it, Ref) and isinstance(self.cell(it), HList) and self.cell(it).items is not None:
+            # a list is iterated by position over its CURRENT content: items removed or added by the body shift what comes next
+            i = 0
+            while i < len(self.cell(it).items):
+                v = self.cell(it).items[i]
+                i += 1
+                self.tick()
+                self.assign(s.target, v, fr)
+                try:
+                    self.exec_block(s.body, fr)
+                except BreakEx:
+                    return
+                except ContinueEx:
+                    continue
+            self.exec_block(s.orelse, fr)
+            return
+        sized = None
+        if isinstance(it, Ref) and isinstance(self.cell(it), (HDict, HSet)):
+            sized = (lambda: len(self.cell(it).d)) if isinstance(self.cell(it), HDict) else (lambda: len(self.cell(it).s))
+            size0 = sized()
         seq = self.iterate(it)
         for v in seq:
+            if sized is not None and sized() != size0:
+                self.raise_exc("RuntimeError", ("dictionary changed size during iteration" if isinstance(self.cell(it), HDict) else "Set changed size during iteration",))
             self.tick()
             self.assign(s.target, v, fr)
             try:
